@@ -18,6 +18,7 @@ package zipslicer
 
 import (
 	"bytes"
+	"errors"
 	"time"
 
 	"github.com/sassoftware/relic/v8/lib/binpatch"
@@ -43,16 +44,24 @@ func (d *Directory) Mangle(callback MangleFunc) (*Mangler, error) {
 		indir:  d.DirLoc,
 		insize: d.Size,
 	}
+	// Kept members are re-indexed as one contiguous run starting at offset 0,
+	// so the input must be laid out that way; otherwise refuse.
+	var next int64
 	for _, f := range d.File {
 		mf := &MangleFile{File: *f, m: m}
 		if err := callback(mf); err != nil {
 			return nil, err
 		}
+		// (after the callback: the input may be a stream that is read in order)
+		size, err := mf.GetTotalSize()
+		if err != nil {
+			return nil, err
+		}
+		if int64(mf.Offset) != next {
+			return nil, errors.New("zip has data before or between its members, refusing to rewrite it")
+		}
+		next += size
 		if mf.deleted {
-			size, err := mf.GetTotalSize()
-			if err != nil {
-				return nil, err
-			}
 			m.patch.Add(int64(mf.Offset), size, nil)
 		} else {
 			if _, err := m.outz.AddFile(&mf.File); err != nil {
@@ -60,6 +69,8 @@ func (d *Directory) Mangle(callback MangleFunc) (*Mangler, error) {
 			}
 		}
 	}
+	// everything after the last member is replaced by the new directory
+	m.indir = next
 	return m, nil
 }
 
